@@ -19,7 +19,7 @@
                       ((files) (dirs)); clean = 1 iff that parse consumed all bytes
                fms  = (script default): script = ((code (absent ids)) ...) per
                       FindMissing call, default = absent ids afterwards. *)
-From BBS Require Import Common.Sx Common.ListX Complete.WireVisit Complete.Completeness.
+From BBS Require Import Common.Sx Common.ListX Generated.Consts Complete.WireVisit Complete.Completeness.
 
 Definition dec_wd (s : sx) : odig :=
   match s with
@@ -56,7 +56,8 @@ Fixpoint lookup_field (off : N) (fs : list (N * N * option directory)) : option 
   | (o, _, d) :: t => if N.eqb o off then d else lookup_field off t
   end.
 
-Definition is_tree_field (num : N) : bool := N.eqb num 1 || N.eqb num 2.
+Definition is_tree_field (num : N) : bool :=
+  N.eqb num c13_tree_root_field || N.eqb num c13_tree_children_field.
 
 (** Fields root (1) and children (2) are unmarshalled as Directory; a field
     that does not unmarshal stops the visit with INVALID_ARGUMENT. *)
